@@ -123,6 +123,25 @@ def gen_case(rng, i, dbinfos):
         if any(p["name"].lower() == nm.lower() for p in phases):
             continue
         phases.append(gen_phase(rng, info, nm, pool))
+    # targeted: two polymorphs defined in the input whose log K differ by 1e-8 … 1e-2 (around the thresholds tol/ln10,
+    # 100·tol/ln10 and the property's 1e-6): the more soluble one must end absent unless the difference is below tolerance
+    if rng.random() < 0.14:
+        for kw in ("Ca", "C(4)"):
+            if all(kw != d["kw"] for d in comps):
+                c = next(c for c in COMPS if c[0] == kw)
+                comps.append({"kw": kw, "conc": float(fmt(loguni(rng, *c[2])))})
+        spec["twin"] = {"logk": round(rng.uniform(-9.2, -7.8), 3), "delta": float(fmt(loguni(rng, 1e-8, 1e-2)))}
+        phases = phases[:4]
+        r = rng.random()
+        ma = float(fmt(loguni(rng, 1e-5, 1e-1)))
+        mb = float(fmt(loguni(rng, 1e-5, 1e-1)))
+        if r < 0.2:
+            ma = 0.0
+        elif r < 0.4:
+            mb = 0.0
+        tsi = 0.0 if rng.random() < 0.6 else round(rng.uniform(-1, 1), 3)
+        phases.append({"name": "TwinA", "si": tsi, "moles": ma})
+        phases.append({"name": "TwinB", "si": tsi, "moles": mb})
     spec["phases"] = phases
     # exchanger
     if info["ex"] and rng.random() < 0.4:
@@ -258,6 +277,10 @@ def render(spec):
     L = []
     if "knobs" in spec:
         L += ["KNOBS", " " + spec["knobs"]]
+    if "twin" in spec:
+        t = spec["twin"]
+        L += ["PHASES", " TwinA", "  CaCO3 = CO3-2 + Ca+2", f"  log_k {t['logk']!r}", " TwinB", "  CaCO3 = CO3-2 + Ca+2",
+              f"  log_k {t['logk'] + t['delta']!r}"]
     L += ["SOLUTION 1", f" temp {fmt(spec['temp'])}", f" pH {fmt(spec['pH'])}", f" pe {fmt(spec['pe'])}", " units mol/kgw",
           f" -water {fmt(spec['water'])}"]
     for c in spec["comps"]:
@@ -362,10 +385,12 @@ def shrink_candidates(spec):
                 mod(lambda s, k=k: s["stages"][k].pop("temp"))
             if "reaction" in st and len(st["reaction"]["amounts"]) > 1:
                 mod(lambda s, k=k: s["stages"][k]["reaction"].update(amounts=s["stages"][k]["reaction"]["amounts"][-1:]))
-    for key in ("ss", "surface", "exchange", "knobs"):
+    for key in ("ss", "surface", "exchange", "knobs", "high_precision"):
         if key in spec:
             mod(lambda s, key=key: s.pop(key))
     for k in range(len(spec["phases"])):
+        if spec["phases"][k]["name"].startswith("Twin"):
+            continue
         dep = "exchange" in spec and any(c.get("phase") == spec["phases"][k]["name"] for c in spec["exchange"]["comps"])
         if not dep and len(spec["phases"]) > 1:
             mod(lambda s, k=k: s["phases"].pop(k))
